@@ -33,8 +33,8 @@ package graph
 //@     invariant[n_used] forall k int :: 0 <= k && k < len(nodeList) ==> (exists i int :: 0 <= i && i < c && (nodeList[k].ID == edges[i][0] || nodeList[k].ID == edges[i][1]))
 //@     invariant[map_listed] forall s string :: has(nodeMap, s) && nodeMap[s] != nil ==> (exists k int :: 0 <= k && k < len(nodeList) && nodeList[k] == nodeMap[s] && nodeList[k].ID == s)
 //@     invariant[n_distinct] forall k int, l int :: 0 <= k && k < l && l < len(nodeList) ==> nodeList[k].ID != nodeList[l].ID
-//@     invariant[e_listed] forall i int :: 0 <= i && i < c ==>
-//@       (exists k int :: 0 <= k && k < len(nodeList) && nodeList[k] == edgeList[i].From) && (exists k int :: 0 <= k && k < len(nodeList) && nodeList[k] == edgeList[i].To)
+//@     invariant[e_from_listed] forall i int :: 0 <= i && i < c ==> (exists k int :: 0 <= k && k < len(nodeList) && nodeList[k] == edgeList[i].From)
+//@     invariant[e_to_listed] forall i int :: 0 <= i && i < c ==> (exists k int :: 0 <= k && k < len(nodeList) && nodeList[k] == edgeList[i].To)
 //@     invariant[arrays] (nodeList == nil || (allocatedArr(nodeList) && !old(allocatedArrId(now(arr(nodeList)))))) && (edgeList == nil || (allocatedArr(edgeList) && !old(allocatedArrId(now(arr(edgeList))))))
 //@     invariant[arrays2] arr(nodeList) != arr(edgeList) || nodeList == nil
 //@     invariant[adj] forall k int :: 0 <= k && k < len(nodeList) ==>
